@@ -27,7 +27,8 @@ ASSUMPTIONS = ['examples are dicts carrying a unique id, so they cannot be order
 SHARD_TIMEOUT = {'quick': 300, 'thorough': 3000}
 LIMITS = {'quick': dict(L=6, LK=5), 'thorough': dict(L=8, LK=6)}
 
-UPSTREAM = ('plain', 'map', 'reversed', 'concat', 'items')
+UPSTREAM = ('plain', 'map', 'reversed', 'concat', 'items', 'reversed-touched',
+            'nested-touched')
 
 
 def make(ld, vals, backing, upstream):
@@ -45,6 +46,18 @@ def make(ld, vals, backing, upstream):
         ds = ds.map(lambda e: {'id': e['id'], 'v': e['v'], 'm': 1})
     elif upstream == 'reversed':
         ds = ds[::-1]
+    elif upstream in ('reversed-touched', 'nested-touched'):
+        # a selection whose keys / key lookup / length were already used before
+        # it is sorted or grouped (memoised state must not leak into the result)
+        ds = ds[::-1] if upstream == 'reversed-touched' else ds[::-1][::-1]
+        try:
+            ks = ds.keys()
+            if len(ks):
+                ds[ks[0]]
+            len(ds)
+            list(ds.items())
+        except Exception:
+            pass
     elif upstream == 'concat':
         h = n // 2
         ds = ds[:h].concatenate(ds[h:])
@@ -231,7 +244,7 @@ def check_groupby(ld, vals, backing, upstream, idkind, res):
             return
     if set(got) != {gid(v) for v in vals}:
         res.violation('group-ids-wrong', case, {'groups': list(got)}, sig=sig)
-    if backing == 'dict' and upstream in ('plain', 'map', 'reversed', 'concat'):
+    if backing == 'dict' and upstream != 'items':
         for k, g in groups.items():
             try:
                 its = [(kk, e['id']) for kk, e in g.items()]
@@ -240,6 +253,16 @@ def check_groupby(ld, vals, backing, upstream, idkind, res):
                 return
             if any(kk != f'k{(i * 7 + 3) % 100:02d}' for kk, i in its):
                 res.violation('group-keys-detached', case, {'items': its}, sig=sig)
+                return
+            try:
+                gk = list(g.keys())
+                looked = [g[kk]['id'] for kk in gk]
+            except BaseException as e:
+                res.violation('group-keys-raised', case, exc_sig(e), sig=sig)
+                return
+            if gk != [kk for kk, _ in its] or looked != [i for _, i in its]:
+                res.violation('group-keys-detached', case,
+                              {'keys': gk, 'items': its, 'lookups': looked}, sig=sig)
                 return
         res.count('group_items_checked')
 
